@@ -3,7 +3,7 @@
    Json/Wrappers.valid_complete shows the validator model accepts. *)
 From Coq Require Import List NArith ZArith Bool Lia.
 From SV.Num Require Import Dec IntPrintProofs IntPrintExact.
-From SV.Enc Require Import Prims Ty Val StdEnc TyLemmas Frag IntBridge EncProofs.
+From SV.Enc Require Import Prims Ty Val StdEnc TyLemmas Frag IntBridge EncProofs Finish.
 From SV.Json Require Import Chars Grammar Fsm Wrappers.
 Import ListNotations.
 Local Open Scope nat_scope.
@@ -152,6 +152,57 @@ Section WF.
       apply IH. cbn [length] in Hs. lia.
   Qed.
 
+  (* `,string`: the scalar inside a string literal *)
+  Lemma numchar_plain : forall l, Forall numchar l -> Forall plain l.
+  Proof.
+    induction 1 as [|c l Hc Hl IH]; constructor; [|exact IH]. unfold plain.
+    destruct Hc as [Hc|Hc]; [unfold is_digit in Hc; apply andb_true_iff in Hc; destruct Hc as [A B]; apply N.leb_le in A; apply N.leb_le in B; lia|lia].
+  Qed.
+
+  Lemma double_esc_body : forall s r, strict_body r -> strict_body (esc_with double_esc s ++ r).
+  Proof.
+    induction s as [|c s IH]; intros r Hr; [exact Hr|].
+    unfold esc_with. cbn [flat_map]. fold (esc_with double_esc s). rewrite <- app_assoc. specialize (IH r Hr).
+    unfold double_esc.
+    destruct (c =? 9)%N; [cbn [app]; apply stb_esc; [reflexivity|]; apply stb_char; try lia; exact IH|].
+    destruct (c =? 10)%N; [cbn [app]; apply stb_esc; [reflexivity|]; apply stb_char; try lia; exact IH|].
+    destruct (c =? 13)%N; [cbn [app]; apply stb_esc; [reflexivity|]; apply stb_char; try lia; exact IH|].
+    destruct (c <? 32)%N eqn:E32.
+    - apply N.ltb_lt in E32. unfold u00. cbn [app]. apply stb_esc; [reflexivity|].
+      assert (H1 := hexdig_hex (c / 16) ltac:(apply N.div_lt_upper_bound; lia)).
+      assert (H2 := hexdig_hex (c mod 16) ltac:(apply N.mod_lt; lia)).
+      destruct (is_hex_plain _ H1) as [A1 A2]. destruct (is_hex_plain _ H2) as [B1 B2].
+      assert (G : forall h, is_hex h = true -> (32 <= h)%N).
+      { intros h Hh. unfold is_hex, is_digit in Hh. repeat (apply orb_true_iff in Hh; destruct Hh as [Hh|Hh]);
+          apply andb_true_iff in Hh; destruct Hh as [A B]; apply N.leb_le in A; apply N.leb_le in B; lia. }
+      repeat (apply stb_char; try lia; try assumption; try (apply G; assumption)).
+    - apply N.ltb_ge in E32.
+      destruct (N.eqb_spec c 34) as [->|N1]; [cbn [app]; apply stb_esc; [reflexivity|]; apply stb_esc; [reflexivity|exact IH]|].
+      destruct (N.eqb_spec c 92) as [->|N2]; [cbn [app]; apply stb_esc; [reflexivity|]; apply stb_esc; [reflexivity|exact IH]|].
+      cbn [app]. apply stb_char; assumption.
+  Qed.
+
+  Lemma strict_quote2 : forall d s, strict d (quote s true).
+  Proof.
+    intros d s. unfold quote.
+    replace ([34; 92; 34]%N ++ esc_with double_esc s ++ [92; 34; 34]%N) with (34%N :: ([92; 34]%N ++ esc_with double_esc s ++ [92; 34]%N) ++ [34%N])
+      by (cbn [app]; rewrite <- app_assoc; reflexivity).
+    apply ST_str. cbn [app]. apply stb_esc; [reflexivity|]. apply double_esc_body. apply stb_esc; [reflexivity|constructor].
+  Qed.
+
+  Lemma scalar_wf_q : forall k fuel v addr res, scalar_kind k = true -> has_type (TPrim k) v ->
+    std_enc e Qraw fuel (TPrim k) v addr true = SOk res -> strict 0 res.
+  Proof.
+    intros k fuel v addr res Hk Hv H. destruct fuel as [|f]; [discriminate H|].
+    inversion Hv as [b|k' z Hr|k' bits txt Hk' Hf|s| | | | | |]; subst.
+    - destruct addr; cbn in H; injection H as <-; destruct b; apply (ST_str 0); apply plain_body; repeat constructor; unfold plain; lia.
+    - unfold int_range_ok in Hr. destruct k; cbn in Hr; try contradiction; destruct addr; cbn in H; injection H as <-;
+        apply (ST_str 0); apply plain_body; apply numchar_plain; apply snumber_numchar; first [apply snumber_itoa|apply snumber_utoa].
+    - destruct Hk' as [-> | ->]; destruct addr; cbn in H; destruct txt as [x|]; try discriminate H; injection H as <-;
+        apply (ST_str 0); apply plain_body; apply numchar_plain; apply snumber_numchar; apply (Hf _ eq_refl).
+    - destruct addr; cbn in H; injection H as <-; apply strict_quote2.
+  Qed.
+
   Lemma tail_wf : forall f el addr l,
     (forall x, In x l -> forall a, std_enc e Qraw f el x addr false = SOk a -> strict (need x) a) ->
     forall tb, tail_items e f el addr l = SOk tb -> strict_atail (need_list l) (tb ++ [93%N]).
@@ -190,53 +241,55 @@ Section WF.
     Hypothesis Hlay : layout_ok e 0 ph sz.
     Variable vs : list val.
     Hypothesis Hlen : length vs = length ph.
+    Hypothesis Htyp : forall k o t x, nth_error ph k = Some (o, t) -> nth_error vs k = Some x -> has_type t x.
     Hypothesis IHph : forall k o t x, nth_error ph k = Some (o, t) -> nth_error vs k = Some x ->
       forall f addr a, std_enc e Qraw f t x addr false = SOk a -> strict (need x) a.
 
+    (* a field is either left out or contributes "name":value *)
     Lemma field_step : forall f addr fd r first items, field_ok ph fd ->
       enc_fields e f ST (VStruct vs) addr (fd :: r) first = SOk items ->
+      enc_fields e f ST (VStruct vs) addr r first = SOk items \/
       exists a rest, strict (need_list vs) a /\ enc_fields e f ST (VStruct vs) addr r false = SOk rest /\
         items = (if first then [] else [44%N]) ++ quote (f_name fd) false ++ [58%N] ++ a ++ rest.
     Proof.
       intros f addr fd r first items (o & Hp & Ho & Hin) H.
+      destruct (opts_ok_bits fd Ho) as (Hoz & Hoe & Hsq).
       destruct (In_nth_error _ _ Hin) as [k Hk].
       assert (Hkl : k < length vs) by (rewrite Hlen; apply nth_error_Some; congruence).
       destruct (nth_error vs k) as [x|] eqn:Hx; [|apply nth_error_None in Hx; lia].
-      rewrite (enc_fields_cons e sz ph fsall Hlay f vs addr fd r first o k x Hp Ho Hk Hx) in H.
+      rewrite (enc_fields_cons e sz ph fsall Hlay f vs addr fd r first o k x Hp Hoz Hk Hx) in H.
+      destruct (F_omitempty fd && is_empty_value e (f_type fd) x); [left; exact H|right].
       unfold sbind in H.
-      destruct (std_enc e Qraw f (f_type fd) x addr false) as [a|] eqn:Ea; [|discriminate H].
+      destruct (std_enc e Qraw f (f_type fd) x addr (F_stringize fd)) as [a|] eqn:Ea; [|discriminate H].
       destruct (enc_fields e f ST (VStruct vs) addr r false) as [rest|] eqn:Er; [|discriminate H].
       injection H as <-. exists a, rest. repeat split; try reflexivity.
-      eapply strict_mono; [eapply IHph; eassumption|]. apply need_list_in. eapply nth_error_In; exact Hx.
+      destruct (F_stringize fd) eqn:Es.
+      - destruct (Hsq eq_refl) as [Hqt _]. destruct (f_type fd) as [kq| | | | | | |] eqn:Eft; try discriminate Hqt.
+        eapply strict_mono; [eapply scalar_wf_q; [exact Hqt|eapply Htyp; eassumption|exact Ea]|apply Nat.le_0_l].
+      - eapply strict_mono; [eapply IHph; eassumption|]. apply need_list_in. eapply nth_error_In; exact Hx.
     Qed.
 
-    Lemma otail_wf : forall f addr fs, Forall (field_ok ph) fs -> forall rest,
-      enc_fields e f ST (VStruct vs) addr fs false = SOk rest -> strict_otail (need_list vs) (rest ++ [125%N]).
+    Lemma fields_wf : forall f addr fs, Forall (field_ok ph) fs -> forall first items,
+      enc_fields e f ST (VStruct vs) addr fs first = SOk items ->
+      if first then strict (S (need_list vs)) ([123%N] ++ items ++ [125%N]) else strict_otail (need_list vs) (items ++ [125%N]).
     Proof.
-      intros f addr fs Hfs. induction Hfs as [|fd r Hfd Hr IH]; intros rest H.
-      - cbn in H. injection H as <-. apply (SOT_end _ []). reflexivity.
-      - destruct (field_step _ _ _ _ _ _ Hfd H) as (a & rest' & H1 & Hr' & ->).
-        pose proof (IH _ Hr') as H2.
-        unfold quote.
-        replace (([44%N] ++ ([34%N] ++ esc_with single_esc (f_name fd) ++ [34%N]) ++ [58%N] ++ a ++ rest') ++ [125%N])
-          with ([] ++ 44%N :: [] ++ 34%N :: esc_with single_esc (f_name fd) ++ 34%N :: [] ++ 58%N :: [] ++ a ++ (rest' ++ [125%N]))
-          by (cbn [app]; repeat (rewrite <- app_assoc; cbn [app]); reflexivity).
-        apply SOT_more; try reflexivity; [apply quote_body|exact H1|exact H2].
+      intros f addr fs Hfs. induction Hfs as [|fd r Hfd Hr IH]; intros first items H.
+      - cbn in H. injection H as <-. destruct first; [apply (ST_obj0 _ [])|apply (SOT_end _ [])]; reflexivity.
+      - destruct (field_step _ _ _ _ _ _ Hfd H) as [H'|(a & rest' & H1 & Hr' & ->)]; [apply IH; exact H'|].
+        pose proof (IH false _ Hr') as H2. cbn iota in H2. unfold quote. destruct first.
+        + replace ([123%N] ++ ([] ++ ([34%N] ++ esc_with single_esc (f_name fd) ++ [34%N]) ++ [58%N] ++ a ++ rest') ++ [125%N])
+            with (123%N :: [] ++ 34%N :: esc_with single_esc (f_name fd) ++ 34%N :: [] ++ 58%N :: [] ++ a ++ (rest' ++ [125%N]))
+            by (cbn [app]; repeat (rewrite <- app_assoc; cbn [app]); reflexivity).
+          apply ST_obj; try reflexivity; [apply quote_body|exact H1|exact H2].
+        + replace (([44%N] ++ ([34%N] ++ esc_with single_esc (f_name fd) ++ [34%N]) ++ [58%N] ++ a ++ rest') ++ [125%N])
+            with ([] ++ 44%N :: [] ++ 34%N :: esc_with single_esc (f_name fd) ++ 34%N :: [] ++ 58%N :: [] ++ a ++ (rest' ++ [125%N]))
+            by (cbn [app]; repeat (rewrite <- app_assoc; cbn [app]); reflexivity).
+          apply SOT_more; try reflexivity; [apply quote_body|exact H1|exact H2].
     Qed.
 
     Lemma struct_wf : forall f addr fs, Forall (field_ok ph) fs -> forall items,
       enc_fields e f ST (VStruct vs) addr fs true = SOk items -> strict (S (need_list vs)) ([123%N] ++ items ++ [125%N]).
-    Proof.
-      intros f addr fs Hfs items H. destruct Hfs as [|fd r Hfd Hr].
-      - cbn in H. injection H as <-. apply (ST_obj0 _ []). reflexivity.
-      - destruct (field_step _ _ _ _ _ _ Hfd H) as (a & rest' & H1 & Hr' & ->).
-        pose proof (otail_wf _ _ _ Hr _ Hr') as H2.
-        unfold quote.
-        replace ([123%N] ++ ([] ++ ([34%N] ++ esc_with single_esc (f_name fd) ++ [34%N]) ++ [58%N] ++ a ++ rest') ++ [125%N])
-          with (123%N :: [] ++ 34%N :: esc_with single_esc (f_name fd) ++ 34%N :: [] ++ 58%N :: [] ++ a ++ (rest' ++ [125%N]))
-          by (cbn [app]; repeat (rewrite <- app_assoc; cbn [app]); reflexivity).
-        apply ST_obj; try reflexivity; [apply quote_body|exact H1|exact H2].
-    Qed.
+    Proof. intros f addr fs Hfs items H. exact (fields_wf f addr fs Hfs true items H). Qed.
   End Struct.
 
   (* every value of the fragment: the bytes of the reference encoder are one strict RFC 8259 value, nested no deeper
@@ -283,7 +336,7 @@ Section WF.
       rewrite std_enc_struct in Hs. unfold sbind in Hs.
       destruct (enc_fields e f (TStruct s ph fs) (VStruct vs) addr fs true) as [items|] eqn:Ef; [|discriminate Hs]. injection Hs as <-.
       change (need (VStruct vs)) with (S (need_list vs)).
-      eapply (struct_wf s ph fs Hlay vs Hlen); [|exact Hfs|exact Ef].
+      eapply (struct_wf s ph fs Hlay vs Hlen Hty); [|exact Hfs|exact Ef].
       intros k o t x Hk Hx f' addr' a Ha.
       rewrite Forall_forall in H. specialize (H (o, t) (nth_error_In _ _ Hk)). cbn in H.
       eapply H; [eapply frag_all_in; [exact Hall|eapply nth_error_In; exact Hk]|eapply Hty; eassumption|exact Ha].
